@@ -128,6 +128,8 @@ def generate_pdf(document, target, zoom, **options):
 
     pdf = pydyf.PDF()
     images = {}
+    # Fonts are cleaned and subset when included, don't use them twice
+    document.fonts = {}
     color_space = pydyf.Dictionary({
         'lab-d50': pydyf.Array(('/Lab', pydyf.Dictionary({
             'WhitePoint': pydyf.Array(D50),
